@@ -212,3 +212,68 @@ func c01firstDiff(a, b []byte) int {
 	}
 	return len(b)
 }
+
+// a local connection that lives longer than StreamTimeout (which only bounds the wait for the FIRST packet): traffic
+// exchanged after that time must still get through
+func c01routeLong(c *ctx, k int) {
+	r := c.r
+	method := byte(r.intn(4))
+	var key [32]byte
+	copy(key[:], r.bytes(32))
+	mk := func() *mux.Session {
+		ob, err := mux.MakeObfuscator(method, key)
+		if err != nil {
+			panic(err)
+		}
+		return mux.MakeSession(9, mux.SessionConfig{Obfuscator: ob, InactivityTimeout: time.Hour, MsgOnWireSizeLimit: 16401})
+	}
+	A, B := mk(), mk()
+	x, y := connutil.AsyncPipe()
+	A.AddConnection(common.NewTLSConn(x))
+	B.AddConnection(common.NewTLSConn(y))
+	go func() {
+		cn, err := B.Accept()
+		if err != nil {
+			return
+		}
+		buf := make([]byte, 4096)
+		for {
+			n, err := cn.Read(buf)
+			if n > 0 {
+				cn.Write(buf[:n])
+			}
+			if err != nil {
+				return
+			}
+		}
+	}()
+	const streamTimeout = 400 * time.Millisecond
+	ln := &memListener{ch: make(chan net.Conn, 1)}
+	go client.RouteTCP(ln, streamTimeout, false, func() *mux.Session { return A })
+	local, remote := net.Pipe()
+	ln.ch <- remote
+	t0 := time.Now()
+	bad := ""
+	for i := 0; time.Since(t0) < 3*streamTimeout+200*time.Millisecond; i++ {
+		msg := c01tagged(r, i, 1+r.intn(200))
+		local.SetDeadline(time.Now().Add(10 * time.Second))
+		if _, err := local.Write(msg); err != nil {
+			bad = fmt.Sprintf("write %d, %v after the connection was accepted: %v", i, time.Since(t0).Round(time.Millisecond), err)
+			break
+		}
+		got := make([]byte, len(msg))
+		if _, err := io.ReadFull(local, got); err != nil || !bytes.Equal(got, msg) {
+			bad = fmt.Sprintf("echo %d, %v after the connection was accepted: %v", i, time.Since(t0).Round(time.Millisecond), err)
+			break
+		}
+		time.Sleep(100 * time.Millisecond)
+	}
+	if bad != "" {
+		c.o.V("C01 connection-cut-after-StreamTimeout", map[string]any{"case": k, "stream_timeout": streamTimeout.String(), "what": bad,
+			"replay": "real client.RouteTCP with StreamTimeout 400 ms; one local connection exchanging a small message with an echoing peer every 100 ms for 1.4 s"})
+	}
+	local.Close()
+	A.Close()
+	B.Close()
+	c.o.case_(fmt.Sprintf("route-long/%d", k), true)
+}
